@@ -279,3 +279,37 @@ case("c11-map-first-only", "break", ["C11"], [(U, "            for c in s[pos..]
 case("c11-prefix-off-by-one", "break", ["C11", "C01"], [(U, "            let mut res = String::from(&s[..pos]);\n            res.reserve(s.len() - res.len());\n            for c in s[pos..].chars() {\n                res.push(match get_decomposition_mapping", "            let mut res = String::from(&s[..pos]);\n            res.reserve(s.len() - res.len());\n            for c in s[pos + 1..].chars() {\n                res.push(match get_decomposition_mapping")], "the first wide character is skipped (and the slice can split a character)")
 case("c11-wrong-row", "break", ["C11"], [(U, "        .map(|x| WIDE_NARROW_MAPPING[x].1)", "        .map(|x| WIDE_NARROW_MAPPING[x].1 + 0)\n        .map(|m| if m == 0x20 { 0x3000 } else { m })")], "U+3000 no longer mapped to U+0020")
 case("c11-keep-match-lookup", "keep", ["C11", "C01"], [(U, "    WIDE_NARROW_MAPPING\n        .binary_search_by(|cps| cps.0.partial_cmp(&cp).unwrap())\n        .map(|x| WIDE_NARROW_MAPPING[x].1)\n        .ok()", "    match WIDE_NARROW_MAPPING.binary_search_by(|cps| cps.0.partial_cmp(&cp).unwrap()) {\n        Ok(x) => Some(WIDE_NARROW_MAPPING[x].1),\n        Err(_) => None,\n    }")], "map/ok → match")
+
+# ------------------------------------------------------------------ C02
+SCF = CORE + "stringclasses.rs"
+case("c02-byte-positions", "break", ["C02"], [(SCF, "for (offset, c) in label.as_ref().chars().enumerate() {", "for (offset, c) in label.as_ref().char_indices() {")], "positions reported (and handed to the rules) in bytes", expect_key=["allows-table"])
+case("c02-position-plus-one", "break", ["C02"], [(SCF, "                | DerivedPropertyValue::Unassigned => Err(Error::BadCodepoint(CodepointInfo::new(\n                    c as u32, offset, val,\n                ))),", "                | DerivedPropertyValue::Unassigned => Err(Error::BadCodepoint(CodepointInfo::new(\n                    c as u32,\n                    offset + 1,\n                    val,\n                ))),")], "one-based position", expect_key=["allows-table"])
+case("c02-specclassdis-valid", "break", ["C02"], [(SCF, "                DerivedPropertyValue::PValid | DerivedPropertyValue::SpecClassPval => Ok(()),\n                DerivedPropertyValue::SpecClassDis\n                | DerivedPropertyValue::Disallowed", "                DerivedPropertyValue::PValid\n                | DerivedPropertyValue::SpecClassPval\n                | DerivedPropertyValue::SpecClassDis => Ok(()),\n                DerivedPropertyValue::Disallowed")], expect_key=["allows-table|SpecClassDis"])
+case("c02-undefined-as-bad", "break", ["C02"], [(SCF, "                context::ContextRuleError::Undefined => {\n                    Err(Error::Unexpected(UnexpectedError::Undefined))\n                }", "                context::ContextRuleError::Undefined => {\n                    Err(Error::BadCodepoint(CodepointInfo::new(cp, offset, val)))\n                }")], expect_key=["Undefined"])
+case("c02-rule-gets-prev-index", "break", ["C02"], [(SCF, "        Some(rule) => match rule(label, offset) {", "        Some(rule) => match rule(label, offset.saturating_sub(1)) {")], "rule evaluated at the previous position", expect_key=["rule-invocation"])
+case("c02-last-error-wins", "break", ["C02"], [(SCF, """                DerivedPropertyValue::ContextJ | DerivedPropertyValue::ContextO => {
+                    allowed_by_context_rule(label.as_ref(), val, c as u32, offset)
+                }
+            }?
+        }
+
+        Ok(())""", """                DerivedPropertyValue::ContextJ | DerivedPropertyValue::ContextO => {
+                    allowed_by_context_rule(label.as_ref(), val, c as u32, offset)
+                }
+            } {
+                last = Err(e);
+            }
+        }
+
+        last"""), (SCF, "        for (offset, c) in label.as_ref().chars().enumerate() {\n            let val = self.get_value_from_char(c);\n\n            match val {", "        let mut last = Ok(());\n        for (offset, c) in label.as_ref().chars().enumerate() {\n            let val = self.get_value_from_char(c);\n\n            if let Err(e) = match val {")], "all characters are checked and the last offender is reported", expect_key=["allows-table"])
+case("c02-registry-arm-deleted", "break", ["C02", "C03"], [(CTX, "        0x0375 => Some(rule_greek_lower_numeral_sign_keraia),\n", "")], expect_key=["registry|missing"])
+case("c02-registry-typo", "break", ["C02", "C03"], [(CTX, "        0x05f3 | 0x5f4 => Some(rule_hebrew_punctuation),", "        0x05f3 | 0x5f5 => Some(rule_hebrew_punctuation),")], expect_key=["registry"])
+case("c02-registry-wrong-rule", "break", ["C02", "C03"], [(CTX, "        0x200c => Some(rule_zero_width_nonjoiner),\n        0x200d => Some(rule_zero_width_joiner),", "        0x200c => Some(rule_zero_width_joiner),\n        0x200d => Some(rule_zero_width_nonjoiner),")], "each joiner is sent to the other's rule, which answers NotApplicable", expect_key=["registry|not-applicable"])
+case("c02-keep-match-bool", "keep", ["C02"], [(SCF, """            Ok(allowed) => {
+                if allowed {
+                    Ok(())
+                } else {
+                    Err(Error::BadCodepoint(CodepointInfo::new(cp, offset, val)))
+                }
+            }""", """            Ok(true) => Ok(()),
+            Ok(false) => Err(Error::BadCodepoint(CodepointInfo::new(cp, offset, val))),""")], "bool matched by pattern")
